@@ -542,3 +542,5 @@ func propC15() Prop[C15Case] {
 func TestC15(t *testing.T) { Run(t, propC15()) }
 
 func FuzzGenC15(f *testing.F) { RunFuzz(f, propC15()) }
+
+func TestRaceC15(t *testing.T) { RunConcurrent(t, propC15(), 4) }
